@@ -44,8 +44,8 @@ def gjInv (n : Nat) (A : Nat → Nat → Rat) : Option (Array (Array Rat)) := Id
           M := M.set! r ((M[r]!.zip rowc).map (fun ab => ab.1 - f * ab.2))
   return some (M.map (fun row => row.extract n (2 * n)))
 
-/-- total inverse used as the model's `inv` parameter (singular ↦ empty; the ops below
-    refuse singular inputs before using it) -/
+/-- candidate inverse handed to the model's `certInv` (singular ↦ empty, which fails the
+    certificate); nothing is assumed about it -/
 def invL (n : Nat) (A : List (List Rat)) : List (List Rat) :=
   match gjInv n (matFn A) with
   | some B => B.toList.map (·.toList)
@@ -103,10 +103,11 @@ def crossRun {L F : Type} [DecidableEq L] [LT L] [DecidableLT L]
       pure (encPairs encL ofRat (crossnobisAlgo rm P N D))
   | "list" =>
     let Ns ← asList (asList (asList asRat)) nj
-    if Ns.any (fun N => (gjInv P (matFn N)).isNone) then throw "singular precision" else
-    let inv := invL P
-    if (pairsOf (Ns.map inv)).any (fun vw => (gjInv P (matFn (matAvg vw.1 vw.2))).isNone) then
-      throw "singular averaged covariance" else
+    -- inverse by certificate: the Gauss–Jordan result is only a candidate, accepted with the
+    -- exact check A · B = I (Core `certInv`); a failed certificate = singular matrix
+    let cand := invL P
+    if !foldPrecCertsOk cand P Ns then throw "singular precision or averaged covariance" else
+    let inv := invOr cand P
     if what = "spec" then
       let folds := sortedDistinct (D.map (·.fold))
       let table : List ((F × F) × List (List Rat)) :=
@@ -119,7 +120,9 @@ def crossRun {L F : Type} [DecidableEq L] [LT L] [DecidableLT L]
       pure (encPairs encL ofRat
         (specPairs D (fun S a b => foldPrecSpec (xT rm P) P prec D S a b)))
     else
-      pure (encPairs encL ofRat (foldPrecAlgo inv rm P Ns D))
+      match foldPrecCert cand rm P Ns D with
+      | some r => pure (encPairs encL ofRat r)
+      | none => throw "singular precision or averaged covariance"
   | other => throw s!"unknown noise kind {other}"
 
 def poissonRun {L F : Type} [DecidableEq L] [LT L] [DecidableLT L]
